@@ -1,7 +1,7 @@
 (* C14 — concurrency limits are respected and never lead to deadlock. *)
 From Coq Require Import List Arith Bool.
-From AM.Model Require Import Sched.
-From AM.Lemmas Require Import SchedLemmas.
+From AM.Model Require Import Sched PathLocks.
+From AM.Lemmas Require Import SchedLemmas PathLocksLemmas.
 Import ListNotations.
 
 (* any number of repositories and transfers, any schedule, every reachable
@@ -41,3 +41,30 @@ Proof.
   - exact (all_started_lemma n y tr s Hn H).
 Qed.
 Print Assumptions all_started.
+
+(* The per-path locks that serialise files sharing a target path
+   (download_file_task) sit OUTSIDE the download semaphore: a task takes its
+   locks in increasing order, then enters D once per transfer attempt.  For any
+   number of files, any lock sets listed in increasing order and any capacity
+   n >= 1, every reachable configuration in which some file is not yet
+   processed has an enabled step: neither the locks among themselves nor the
+   locks together with D can deadlock. *)
+Theorem no_deadlock_with_path_locks :
+  forall n y tr s, 1 <= n -> ordered y = true -> lrun n y linit tr = Some s -> lfinishedb y s = false ->
+  exists a s', lstep n y s a = Some s'.
+Proof. exact no_deadlock_reachable_lemma. Qed.
+Print Assumptions no_deadlock_with_path_locks.
+
+(* ... every schedule is finite, and a maximal one has processed every queued file *)
+Theorem every_file_processed_with_path_locks :
+  forall n y tr s, 1 <= n -> ordered y = true -> lrun n y linit tr = Some s ->
+  List.length tr <= lmu y linit /\ ((forall a, lstep n y s a = None) -> lfinished y s).
+Proof. exact all_processed_lemma. Qed.
+Print Assumptions every_file_processed_with_path_locks.
+
+Example path_locks_example :
+  ordered twin_sys = true /\
+  lrun 2 twin_sys linit [LAcq 0; LAcq 0; LAcq 1] = None /\
+  laccepts 2 twin_sys [LAcq 0; LAcq 0; LEnter 0; LAcq 2; LEnter 2; LAcqD 0; LAcqD 2; LRelD 2; LRelD 0; LFin 0;
+                       LAcq 1; LAcq 1; LFin 2; LEnter 1; LAcqD 1; LRelD 1; LFin 1] = (true, true).
+Proof. exact twin_example. Qed.
